@@ -8,6 +8,7 @@ import Aldrin.Model.Packetizer
 import Driver.BrokerCmd
 import Driver.TypeIdCmd
 import Driver.DiscCmd
+import Driver.TypedCmd
 
 namespace Aldrin.Driver
 open Aldrin
@@ -165,6 +166,7 @@ def ioCmd (cmd : String) (args : List String) : Option String :=
 structure DState where
   broker : BState := {}
   disc : Option Aldrin.Disc.Disc := none
+  tenv : Aldrin.Typed.Env := []
   deriving Inhabited
 
 def step (ds : DState) (line : String) : DState × String :=
@@ -181,6 +183,8 @@ def step (ds : DState) (line : String) : DState × String :=
           | some out => (ds, out)
           | none => match discCmd ds.disc cmd args with
           | some (d, out) => ({ ds with disc := d }, out)
+          | none => match typedCmd ds.tenv cmd args with
+          | some (e, out) => ({ ds with tenv := e }, out)
           | none => match brokerCmd ds.broker cmd args with
             | some (b, out) => ({ ds with broker := b }, out)
             | none => (ds, "bad-op")
